@@ -7,6 +7,7 @@ CONSTANTS
     MaxPoolOps = 1
     CreateUnderLock = TRUE
     MayFail = FALSE
+    MayForget = FALSE
 SYMMETRY Symm
 INVARIANTS TypeOK MutexOK OwnerOK Exclusive IdleDisjoint Conservation ReuseOK ReuseTight DataIntact
-PROPERTIES DecideCreateOnlyWhenIdleEmpty BlocksOnlyForgottenByPoolOps ResetRewindsAll DropReleasesAll
+PROPERTIES DecideCreateOnlyWhenIdleEmpty BlocksOnlyForgottenByPoolOps ResetRewindsAll DropReleasesAll LeakedStayValid
